@@ -1,6 +1,7 @@
 package main
 
 import (
+	"strings"
 	"fmt"
 	"os/exec"
 	"sort"
@@ -67,7 +68,32 @@ func tryReplay(w *World, r *OblResult, workdir string) *replayOutcome {
 	if g.fn != nil && g.fn.Pkg != nil && g.fn.Pkg.Pkg.Path() == modPath+"/internal/db" && g.unit.ErrFlow {
 		return replayFaults(w, r, workdir)
 	}
+	if g.fn != nil && g.fn.Pkg != nil && g.fn.Pkg.Pkg.Path() == modPath+"/internal/datastore" && hasTag(r.O.Tags, "C16") {
+		return replayRace(w, r, workdir)
+	}
 	return &replayOutcome{Outcome: "not-attempted", Note: "no replay generator for this function shape"}
+}
+
+// replayRace: goroutines share one concurrent transaction under the race detector.
+func replayRace(w *World, r *OblResult, workdir string) *replayOutcome {
+	ov := mergedOverlay(workdir, map[string]string{w.repo + "/internal/datastore/zz_c16_race_test.go": filepath.Join(verifDir, "harness/datastore/zz_c16_race_test.go")})
+	cmd := exec.Command("go", "test", "-race", "-overlay", ov, "-vet=off", "-count=1", "-timeout", "240s", "-run", "^TestGovcC16ConcurrentTxn$", "./internal/datastore")
+	cmd.Dir = w.repo
+	cmd.Env = append(os.Environ(), "GOFLAGS=-mod=mod", "GOPROXY=off")
+	b, err := cmd.CombinedOutput()
+	ro := &replayOutcome{Test: "go test -race -overlay … -run ^TestGovcC16ConcurrentTxn$ ./internal/datastore", Output: truncate(string(b), 3000)}
+	switch {
+	case strings.Contains(string(b), "WARNING: DATA RACE"):
+		ro.Outcome = "reproduced"
+		ro.Inputs = "8 goroutines x 200 Set/Get/Has on the stores of one NewConcurrentTxnFrom transaction (in-memory badger): the race detector reports a data race"
+	case err == nil:
+		ro.Outcome = "not-reproduced"
+		ro.Note = "no data race reported by the race detector for this schedule"
+	default:
+		ro.Outcome = "not-attempted"
+		ro.Note = "race harness failed to run"
+	}
+	return ro
 }
 
 func mergedOverlay(workdir string, extra map[string]string) string {
